@@ -52,7 +52,7 @@ VERBS = {'get': 'GET', 'get_one': 'GET', 'get_all': 'GET', 'post': 'POST', 'put'
 
 PURE_BUILTINS = {'set', 'len', 'zip', 'str', 'int', 'bool', 'list', 'dict', 'tuple', 'isinstance',
                  'sorted', 'any', 'all', 'cut', 'getattr', 'hasattr'}
-PURE_ROOTS = {'pecan', 'wsme_pecan', 'request', 'json', 'uuidutils', 'states', 'cfg', 'CONF', 'os', 'wtypes'}
+PURE_ROOTS = {'pecan', 'wsme_pecan', 'request', 'json', 'uuidutils', 'strutils', 'states', 'cfg', 'CONF', 'os', 'wtypes'}
 PURE_DOTTED = {
     'filter_utils.create_filters_from_request_params',
     'rest_utils.create_db_retry_object',
@@ -731,7 +731,36 @@ def extract(repo):
     if not isinstance(sup, ast.List) or not all(isinstance(e, ast.Attribute) and dotted(e.value) == 'states' for e in sup.elts):
         raise TranslateError('SUPPORTED_TRANSITION_STATES is not a literal list of states.X')
     supported = [e.attr for e in sup.elts]
-    return {'methods': methods, 'rules': rrows, 'supported': supported, 'exc_codes': exc_codes}
+    return {'methods': methods, 'rules': rrows, 'supported': supported, 'exc_codes': exc_codes,
+            'force_conv': force_conversion(mods)}
+
+
+def force_conversion(mods):
+    """How ExecutionsController.delete turns its `force` query parameter into a boolean."""
+    mi = mods.get('mistral/api/controllers/v2/execution.py')
+    cls = mi.classes.get('ExecutionsController') if mi else None
+    fn = next((n for n in (cls.body if cls else []) if isinstance(n, ast.FunctionDef) and n.name == 'delete'), None)
+    if fn is None:
+        raise TranslateError('no ExecutionsController.delete')
+    params = [a.arg for a in fn.args.args]
+    if params[:3] != ['self', 'id', 'force']:
+        raise TranslateError('ExecutionsController.delete: unexpected signature %s' % params)
+    dec = next((d for d in fn.decorator_list if expose_kind(d) == 'wsme'), None)
+    if dec is None or not isinstance(dec, ast.Call) or len(dec.args) < 3:
+        raise TranslateError('ExecutionsController.delete: unexpected wsexpose signature')
+    ftype = ast.unparse(dec.args[2])
+    parses = [n for n in ast.walk(fn) if isinstance(n, ast.Assign) and len(n.targets) == 1
+              and isinstance(n.targets[0], ast.Name) and n.targets[0].id == 'force']
+    if ftype == 'bool' and not parses:
+        return 'ConvPyBool'
+    if ftype in ('wtypes.text', 'str') and len(parses) == 1 and isinstance(parses[0].value, ast.Call) \
+            and dotted(parses[0].value.func) == 'strutils.bool_from_string' \
+            and [ast.unparse(a) for a in parses[0].value.args] == ['force'] and not parses[0].value.keywords \
+            and fn.body.index(parses[0]) < min([i for i, st in enumerate(fn.body)
+                                                if any(isinstance(n, ast.Name) and n.id == 'force' and isinstance(n.ctx, ast.Load)
+                                                       for n in ast.walk(st)) and st is not parses[0]] or [10 ** 6]):
+        return 'ConvStrutils'
+    raise TranslateError('ExecutionsController.delete: unrecognised conversion of the force parameter (%s)' % ftype)
 
 
 def translate(repo):
@@ -764,5 +793,6 @@ def translate(repo):
     out.append('].\n')
     out.append('Definition action_supported_states : list state := [%s].' % '; '.join(
         'RUNNING_DELAYED' if s == 'RUNNING_DELAYED' else s for s in t['supported']))
+    out.append('Definition exec_delete_force_conv : force_conv := %s.' % t['force_conv'])
     out.append('')
     return '\n'.join(out)
